@@ -23,7 +23,8 @@ SPEC = dict(
         "(plus the vmap-hostile variants for k=1 / m=1); state = (m, k, recorded sweep widths); non-trivial = distinct (case, k) "
         "with 1 < k < m and m mod k != 0 (a remainder sweep exists)"
     ),
-    bound=dict(quick="all (m,k), m<=12, k in {None,1..m+2}; 6 backward shapes + mtl; retain_graph in {F,T}", thorough="m <= 24"),
+    bound=dict(quick="all (m,k), m<=12, k in {None,1..m+2}; 7 backward shapes (incl. mixed dtype) + mtl + mtl with losses that ignore the features; retain_graph in {F,T}; "
+                    "m=300 (backward) and m=70 (mtl) with chunk sizes around 64/256/m", thorough="m <= 24"),
     assumptions=["programs limited to the shapes in this file", "sweeps observed through tensor hooks and torch._C._functorch introspection"],
 )
 
